@@ -4,7 +4,7 @@
 pattern (vp.symx.canon); every register assignment with that coincidence structure is
 covered by one path.  Latencies are distinct powers of two so a sum identifies its members.
 (ii) number cells: fixed cycle shapes, all latencies symbolic.
-Real code: KernelDG.create_DG on the doubled kernel, check_for_loopcarried_dep (sequential
+Real code: KernelDG.create_DG on the doubled kernel, check_for_loopcarried_dep (sequential branch; lcd3_workers: multi-process
 branch), get_loopcarried_dependencies, Frontend.full_analysis_dict (LCD summary).
 Oracle: vp.synth.ref_raw over two concatenated iterations + ref_lcd.
 """
@@ -24,9 +24,17 @@ def _frontend(isa):
     return f
 
 
-def _observe(isa, kernel, flag_deps=False):
+def _observe(isa, kernel, flag_deps=False, workers=0):
     parser = NativeParser(PX if isa == "x86" else PA)
-    g = DG(kernel, parser, lcd=True, flag_dependencies=flag_deps)
+    if workers:
+        # the multi-process search (threshold lowered) with stub processes: the same cycles have to come out
+        from harness._procstub import Env, installed
+        g = DG(kernel, parser, flag_dependencies=flag_deps)
+        g.INSTRUCTION_THRESHOLD = 1
+        with installed(Env(workers)):
+            g.loopcarried_deps = g.check_for_loopcarried_dep(kernel, timeout=-1, flag_dependencies=flag_deps)
+    else:
+        g = DG(kernel, parser, lcd=True, flag_dependencies=flag_deps)
     deps = g.get_loopcarried_dependencies()
     got = {}
     dup = False
@@ -62,7 +70,7 @@ def _summary_ok(isa, kernel, g, ref):
     return d["Summary"]["LCD"] == want
 
 
-def _struct_concrete(isa, nreads, pat, narrow_reads, summary):
+def _struct_concrete(isa, nreads, pat, narrow_reads, summary, workers=0):
     """Everything is concrete here (pattern decided by the solver): one native run of the real code."""
     n = len(nreads)
     k = 0
@@ -75,12 +83,12 @@ def _struct_concrete(isa, nreads, pat, narrow_reads, summary):
         src = [class_reg(isa, c, narrow=narrow_reads) for c in rc]
         kernel.append(iform(i + 1, src=src, dst=[class_reg(isa, wc)], lat=weights[i]))
         instrs.append((set(rc), {wc}))
-    g, deps, got, bad = _observe(isa, kernel)
+    g, deps, got, bad = _observe(isa, kernel, workers=workers)
     ref = _reference(instrs, weights)
     ok = (not bad) and got == ref
     if ok and summary:
         ok = _summary_ok(isa, kernel, g, ref)
-    return ok, len(ref) > 0, {"pattern": list(pat), "cycles": [list(m) for m in ref]}
+    return ok, len(ref) > 0, {"pattern": list(pat), "cycles": [list(m) for m in ref], "workers": workers}
 
 
 def _struct(isa, nreads, flat, narrow, summary=True, prefix=4):
@@ -101,6 +109,24 @@ def lcd3_x86(r0: int, w0: int, r1: int, w1: int, r2: int, w2: int, narrow: bool)
     if skip(locals()):
         return True
     return _struct("x86", [1, 1, 1], [r0, w0, r1, w1, r2, w2], narrow)
+
+
+def lcd3_workers(r0: int, w0: int, r1: int, w1: int, r2: int, w2: int, workers: int) -> bool:
+    """
+    pre: 1 <= workers <= 5
+    post: _
+    """
+    # the same family through the multi-process search with 1-5 stub workers (also counts that do not
+    # divide the kernel length and more workers than instructions)
+    if skip(locals()):
+        return True
+    from vp.symx import pick
+    pre = canon([r0, w0, r1, w1])
+    if not in_shard_index(pattern_index(pre)):
+        return True
+    pat = canon([r0, w0, r1, w1, r2, w2])
+    ok, nontrivial, sample = native(_struct_concrete, "x86", [1, 1, 1], list(pat), False, False, pick(workers - 1, 5) + 1)
+    return verdict(ok, nontrivial=nontrivial, sample=sample)
 
 
 def lcd3_a64(r0: int, w0: int, r1: int, w1: int, r2: int, w2: int, narrow: bool) -> bool:
@@ -377,6 +403,7 @@ def lcd_flags(fw0: bool, fr0: bool, fw1: bool, fr1: bool, fw2: bool, fr2: bool, 
 CELLS = {
     "lcd3_x86": {"fn": lcd3_x86, "bound": "n=3, one read + one write per instruction, all register coincidence patterns (Bell(6)=203) x {reads via 64-bit, 32-bit alias}; real code native per pattern",
                  "budget": {"quick": 170, "thorough": 600}, "shards": 5},
+    "lcd3_workers": {"fn": lcd3_workers, "bound": "n=3, all 203 patterns through the multi-process search (threshold lowered, stub processes) with 1-5 workers", "budget": {"quick": 170, "thorough": 600}, "shards": 15},
     "lcd4_x86": {"fn": lcd4_x86, "bound": "n=4, one read + one write per instruction, all Bell(8)=4140 patterns; real code native per pattern", "budget": {"quick": 170, "thorough": 900}, "shards": 13},
     "lcd5_x86": {"fn": lcd5_x86, "tiers": ("thorough",), "bound": "n=5, one read + one write per instruction, all Bell(10)=115975 patterns; real code native per pattern", "budget": {"thorough": 3000}, "shards": 203},
     "lcd3_traced": {"fn": lcd3_traced, "tiers": ("thorough",), "bound": "n=3 as lcd3_x86 but the real code runs under the tracer", "budget": {"thorough": 900}, "shards": 15},
@@ -393,7 +420,7 @@ CELLS = {
 }
 
 META = {
-    "functions": ["KernelDG.check_for_loopcarried_dep (sequential branch)", "KernelDG.create_DG", "KernelDG.find_depending", "KernelDG.is_read", "KernelDG.is_written",
+    "functions": ["KernelDG.check_for_loopcarried_dep (sequential branch; multi-process branch with stub processes in lcd3_workers)", "KernelDG.create_DG", "KernelDG.find_depending", "KernelDG.is_read", "KernelDG.is_written",
                   "KernelDG.get_loopcarried_dependencies", "Frontend.full_analysis_dict (Summary.LCD)", "networkx.all_simple_paths (traced)"],
     "bounds": "n<=3 quick / n<=4 thorough; registers by equality pattern (covers every register assignment with the same coincidences); latencies 2^i (structure cells) or symbolic (number cells)",
     "outside": "n>=50 parallel branch (C16), timeouts (C19), memory dependencies (C06), shipped models",
